@@ -42,7 +42,45 @@ impl Default for RunOpts {
     }
 }
 
+thread_local! {
+    static SENTINEL_SEQ: std::cell::Cell<u64> = const { std::cell::Cell::new(0) };
+}
+
+/// In crash-isolation mode (env VERIF_CRASH_SENTINEL) the case about to be executed is written to
+/// a per-thread file first and removed afterwards: if the library aborts the host process
+/// (native stack overflow, allocation failure) the file that is left behind is the replay.
+fn sentinel_path() -> Option<std::path::PathBuf> {
+    std::env::var("VERIF_CRASH_SENTINEL").ok()?;
+    let tid = format!("{:?}", std::thread::current().id()).replace(|c: char| !c.is_ascii_digit(), "");
+    Some(crate::report::verif_dir().join("replays").join(format!("inflight-{}-{}.json", std::process::id(), tid)))
+}
+
 pub fn run_case(case: &Case, opts: &RunOpts) -> RunOut {
+    let sentinel = sentinel_path();
+    if let Some(p) = &sentinel {
+        let _ = std::fs::create_dir_all(p.parent().unwrap());
+        let seq = SENTINEL_SEQ.with(|s| {
+            s.set(s.get() + 1);
+            s.get()
+        });
+        let doc = serde_json::json!({
+            "property": std::env::var("VERIF_CRASH_SENTINEL").unwrap_or_default(),
+            "oracle": "the host process must not be aborted",
+            "abort_probe": true,
+            "seq": seq,
+            "signature": "host process aborted",
+            "case": case.to_json(),
+        });
+        let _ = std::fs::write(p, serde_json::to_string_pretty(&doc).unwrap());
+    }
+    let out = run_case_inner(case, opts);
+    if let Some(p) = &sentinel {
+        let _ = std::fs::remove_file(p);
+    }
+    out
+}
+
+fn run_case_inner(case: &Case, opts: &RunOpts) -> RunOut {
     let mut sim = Sim::new(&case.knobs, case.gc.clone(), case.slices.clone(), case.sched_seed);
     sim.instr_cap = opts.cap;
     sim.set_gc_mode(opts.mode);
